@@ -6,7 +6,7 @@
 \* (pan+pan, rej+pan, pan+rej).  I0-I7 hold: a panicking gate is a gate that did not pass.
 \* The behaviours are exported (ExportGates) and replayed over the real transports.
 \* No VIEW (glog is exported).  Needs -workers 1.
-\* Measured: see notes/C03.md.
+\* Measured: 14 742 distinct / 18 669 generated states, depth 8, 3 927 distinct behaviours printed, 4-8 s (1 worker).
 SPECIFICATION MCSpec
 CONSTANTS
   Reqs = {1}
